@@ -113,9 +113,13 @@ def describe(case, obs):
 
 def distribution(cases, obs):
     d = {"events": 0, "context_switches": 0, "acknowledged_pauses": 0, "failed_attempts": 0, "runtime_saves": 0, "faults": 0,
-         "outcomes": {}, "deadlocks": 0, "commands": {}, "timeouts": 0}
+         "outcomes": {}, "deadlocks": 0, "commands": {}, "timeouts": 0,
+         "interrupts_delivered": {"at_a_tick": 0, "inside_a_shutdown": 0, "before_another_operation": 0}}
     for c, o in zip(cases, obs):
         tr = o.get("trace") or []
+        if any(e[1] == "interrupt" for e in tr):
+            k = "at_a_tick" if c.get("interrupt_at") is not None else ("inside_a_shutdown" if c.get("interrupt_in_shutdown") is not None else "before_another_operation")
+            d["interrupts_delivered"][k] += 1
         d["events"] += len(tr)
         d["context_switches"] += sum(1 for a, b in zip(tr, tr[1:]) if a[0] != b[0])
         d["acknowledged_pauses"] += sum(1 for e in tr if e[1] == "clock_pause")
